@@ -18,6 +18,9 @@ Proof.
   induction body as [|e r IHr]; constructor; [apply IH|exact IHr].
 Qed.
 
+Lemma Forall_all {A} (P : A -> Prop) (H : forall x, P x) l : Forall P l.
+Proof. apply Forall_forall. auto. Qed.
+
 (** List versions of the syntactic measures. *)
 Fixpoint creates_l (l : list effect) : N :=
   match l with [] => 0 | e :: r => creates e + creates_l r end.
@@ -31,13 +34,13 @@ Definition body_ctx (k : fkind) (self to : addr) : addr :=
   match k with KCallCode | KDelegateCall => self | _ => to end.
 
 Lemma creates_frame k to v ok body : creates (EFrame k to v ok body) = kcost k + creates_l body.
-Proof. cbn [creates]. f_equal. induction body as [|e r IH]; [reflexivity|]. cbn [creates_l]. now rewrite <- IH. Qed.
+Proof. reflexivity. Qed.
 Lemma addrs_frame k to v ok body : effect_addrs (EFrame k to v ok body) = to :: addrs_l body.
-Proof. cbn [effect_addrs]. f_equal. induction body as [|e r IH]; [reflexivity|]. cbn [addrs_l]. now rewrite <- IH. Qed.
+Proof. reflexivity. Qed.
 Lemma no_sd_self_frame self k to v ok body :
   no_sd_self self (EFrame k to v ok body) = no_sd_self_l (body_ctx k self to) body.
 Proof.
-  cbn [no_sd_self]. fold (body_ctx k self to). generalize (body_ctx k self to) as ctx. intros ctx.
+  cbn [no_sd_self]. fold (body_ctx k self to). generalize (body_ctx k self to). intros ctx.
   induction body as [|e r IH]; [reflexivity|]. cbn [no_sd_self_l]. now rewrite <- IH.
 Qed.
 
@@ -46,32 +49,33 @@ Section Frames.
   Variable h : N.
   Notation state := (state R).
 
-  Lemma go_eq ctx l (st : state) :
+  Lemma go_eq d ctx l (st : state) :
     (fix go (l : list effect) (st : state) {struct l} : state :=
-       match l with [] => st | e :: r => go r (run_effect h ctx st e) end) l st
-    = run_effects h ctx l st.
+       match l with [] => st | e :: r => go r (run_effect h d ctx st e) end) l st
+    = run_effects h d ctx l st.
   Proof. revert st. induction l as [|e r IH]; intros st; [reflexivity|]. cbn [run_effects]. apply IH. Qed.
 
   (** The frame equations, with the body as [run_effects]. *)
-  Lemma run_effect_frame self (s : state) k to v ok body :
-    run_effect h self s (EFrame k to v ok body) =
+  Lemma run_effect_frame d self (s : state) k to v ok body :
+    run_effect h d self s (EFrame k to v ok body) =
+    if CALL_CREATE_DEPTH <? d then s else
     match k with
     | KCall =>
         if (negb (v =? 0)) && negb (can_transfer (bal s self) v) then s
         else let s1 := transfer s self to v in
-             let s2 := if has_code s1 to then run_effects h to body s1 else s1 in
+             let s2 := if has_code s1 to then run_effects h (d + 1) to body s1 else s1 in
              if ok then s2 else s
     | KCallCode =>
         if negb (can_transfer (bal s self) v) then s
-        else let s2 := run_effects h self body s in if ok then s2 else s
-    | KDelegateCall => let s2 := run_effects h self body s in if ok then s2 else s
+        else let s2 := run_effects h (d + 1) self body s in if ok then s2 else s
+    | KDelegateCall => let s2 := run_effects h (d + 1) self body s in if ok then s2 else s
     | KStaticCall => if ok then add_balance s to 0 else s
     | KCreate =>
         if negb (can_transfer (bal s self) v) then s
         else let s0 := set_nonce s self (next_nonce (nonce s self)) in
              if collision s0 to then s0
              else let s1 := if is_fork EIP158_BLOCK h then set_nonce s0 to 1 else s0 in
-                  let s2 := run_effects h to body (transfer s1 self to v) in
+                  let s2 := run_effects h (d + 1) to body (transfer s1 self to v) in
                   if ok then set_code s2 to else s0
     end.
   Proof. destruct k; cbn [run_effect]; rewrite ?go_eq; reflexivity. Qed.
@@ -80,4 +84,550 @@ Section Frames.
       construction has nonce 1. *)
   Lemma eip158_active : is_fork EIP158_BLOCK h = true.
   Proof. cbn. apply N.leb_le. lia. Qed.
+  (** * Nonces only grow (by at most the number of creations), code flags only appear *)
+  Definition room (s : state) (n : N) : Prop := forall a, nonce s a + n < U64.
+  Definition grows (n : N) (s s' : state) : Prop :=
+    (forall a, nonce s a <= nonce s' a /\ nonce s' a <= nonce s a + n) /\
+    (forall a, has_code s a = true -> has_code s' a = true).
+
+  Lemma grows_refl n (s : state) : grows n s s.
+  Proof. split; [intros a; lia|auto]. Qed.
+  Lemma grows_same n (s s' : state) : nonce s' = nonce s -> has_code s' = has_code s -> grows n s s'.
+  Proof. intros E1 E2. split; [intros a; rewrite E1; lia|intros a; now rewrite E2]. Qed.
+  Lemma grows_trans n1 n2 (s s' s'' : state) : grows n1 s s' -> grows n2 s' s'' -> grows (n1 + n2) s s''.
+  Proof.
+    intros [A1 B1] [A2 B2]. split; [|auto]. intros a. destruct (A1 a), (A2 a). lia.
+  Qed.
+  Lemma grows_weaken n n' (s s' : state) : n <= n' -> grows n s s' -> grows n' s s'.
+  Proof. intros Hle [A B]. split; [|auto]. intros a. destruct (A a). lia. Qed.
+  Lemma room_weaken (s : state) n n' : n' <= n -> room s n -> room s n'.
+  Proof. intros Hle H a. specialize (H a). lia. Qed.
+  Lemma room_after n1 n2 (s s' : state) : grows n1 s s' -> room s (n1 + n2) -> room s' n2.
+  Proof. intros [A _] H a. specialize (H a). destruct (A a). lia. Qed.
+
+  Lemma sub_balance_fields (s : state) a v :
+    nonce (sub_balance s a v) = nonce s /\ has_code (sub_balance s a v) = has_code s /\
+    suicided (sub_balance s a v) = suicided s.
+  Proof. unfold sub_balance, handle_sub_balance. destruct (_ <? _); repeat split. Qed.
+
+  Lemma transfer_fields (s : state) a b v :
+    nonce (transfer s a b v) = nonce s /\ has_code (transfer s a b v) = has_code s /\
+    suicided (transfer s a b v) = suicided s.
+  Proof. unfold transfer. cbn [add_balance set_bal nonce has_code suicided]. apply sub_balance_fields. Qed.
+
+  Lemma op_selfdestruct_fields (s : state) self ben :
+    nonce (op_selfdestruct s self ben) = nonce s /\ has_code (op_selfdestruct s self ben) = has_code s.
+  Proof. unfold op_selfdestruct, suicide. destruct (account_empty _ _); split; reflexivity. Qed.
+
+  Lemma next_nonce_room (s : state) a n : room s n -> 1 <= n -> next_nonce (nonce s a) = nonce s a + 1.
+  Proof. intros H Hn. specialize (H a). unfold next_nonce. rewrite U64_val in H. lia. Qed.
+
+  Definition PA (ef : effect) : Prop :=
+    forall d self (s : state), room s (creates ef) -> grows (creates ef) s (run_effect h d self s ef).
+
+  Lemma grows_list l : Forall PA l ->
+    forall d ctx (s : state), room s (creates_l l) -> grows (creates_l l) s (run_effects h d ctx l s).
+  Proof.
+    induction 1 as [|e r He Hr IH]; intros d ctx s Hroom; [apply grows_refl|].
+    cbn [run_effects creates_l] in *.
+    assert (H1 : grows (creates e) s (run_effect h d ctx s e)) by (apply He; eapply room_weaken; [|exact Hroom]; lia).
+    eapply grows_trans; [exact H1|]. apply IH. eapply room_after; eauto.
+  Qed.
+
+  Lemma grows_effect : forall ef, PA ef.
+  Proof.
+    apply effect_ind2.
+    - intros ben d self s _. cbn [run_effect creates]. destruct (op_selfdestruct_fields s self ben) as [E1 E2].
+      now apply grows_same.
+    - intros k to v ok body Hbody d self s Hroom. rewrite run_effect_frame, creates_frame in *.
+      pose proof (fun c s => grows_list body Hbody (d + 1) c s) as HL.
+      destruct (CALL_CREATE_DEPTH <? d); [apply grows_refl|].
+      destruct k; cbn [kcost] in *.
+      + (* Call *)
+        destruct (_ && _); [apply grows_refl|]. cbv zeta.
+        destruct ok; [|apply grows_refl].
+        destruct (transfer_fields s self to v) as (E1 & E2 & _).
+        assert (G1 : grows 0 s (transfer s self to v)) by now apply grows_same.
+        destruct (has_code _ to).
+        * eapply grows_trans; [exact G1|]. apply HL. eapply room_after; [exact G1|exact Hroom].
+        * eapply grows_weaken; [|exact G1]. lia.
+      + (* CallCode *)
+        destruct (negb _); [apply grows_refl|]. cbv zeta. destruct ok; [|apply grows_refl].
+        apply (HL self s Hroom).
+      + (* DelegateCall *)
+        cbv zeta. destruct ok; [|apply grows_refl]. apply (HL self s Hroom).
+      + (* StaticCall *)
+        destruct ok; [|apply grows_refl]. now apply grows_same.
+      + (* Create *)
+        destruct (negb _); [apply grows_refl|]. cbv zeta.
+        pose proof (next_nonce_room s self _ Hroom ltac:(lia)) as En.
+        set (s0 := set_nonce s self (next_nonce (nonce s self))).
+        assert (G0 : grows 1 s s0).
+        { split; [|auto]. intros a. unfold s0. cbn [set_nonce nonce]. unfold upd.
+          destruct (N.eqb_spec a self); [subst; rewrite En|]; lia. }
+        destruct (collision s0 to) eqn:Ecol; [eapply grows_weaken; [|exact G0]; lia|].
+        destruct ok; [|eapply grows_weaken; [|exact G0]; lia].
+        rewrite eip158_active.
+        (* the new address has nonce 0 and no code in s0, and differs from self *)
+        unfold collision in Ecol. apply orb_false_iff in Ecol. destruct Ecol as [Ec1 Ec2].
+        apply negb_false_iff, N.eqb_eq in Ec1.
+        assert (Hne : to <> self).
+        { intros ->. unfold s0 in Ec1. cbn [set_nonce nonce] in Ec1. rewrite upd_same, En in Ec1. lia. }
+        set (s1 := set_nonce s0 to 1).
+        assert (G1 : grows 1 s s1).
+        { split.
+          - intros a. unfold s1, s0 in *. cbn [set_nonce nonce] in *. unfold upd in *.
+            destruct (N.eqb_spec a to) as [->|Hat].
+            + destruct (N.eqb_spec to self); [contradiction|]. lia.
+            + destruct (N.eqb_spec a self); [subst; rewrite En|]; lia.
+          - auto. }
+        destruct (transfer_fields s1 self to v) as (E1 & E2 & _).
+        assert (G2 : grows 1 s (transfer s1 self to v)).
+        { destruct G1 as [A B]. split; [intros a; rewrite E1; apply A|intros a; rewrite E2; apply B]. }
+        assert (G3 : grows (1 + creates_l body) s (run_effects h (d + 1) to body (transfer s1 self to v))).
+        { eapply grows_trans; [exact G2|]. apply HL. eapply room_after; [exact G2|exact Hroom]. }
+        destruct G3 as [A B]. split; [exact A|]. intros a Ha. cbn [set_code has_code]. unfold upd.
+        destruct (a =? to); [reflexivity|auto].
+  Qed.
+  (** * The ONG sum: never grows, and is conserved without SELFDESTRUCT-to-self *)
+  Definition live (s : state) (a : addr) : Prop := account_empty s a = false.
+
+  Lemma live_grows n (s s' : state) a : grows n s s' -> live s a -> live s' a.
+  Proof.
+    intros [A B] H. unfold live, account_empty in *. apply andb_false_iff in H. apply andb_false_iff.
+    destruct H as [H|H].
+    - left. apply N.eqb_neq in H. apply N.eqb_neq. destruct (A a). lia.
+    - right. apply negb_false_iff in H. apply negb_false_iff. auto.
+  Qed.
+
+  Lemma live_code (s : state) a : has_code s a = true -> live s a.
+  Proof. intros H. unfold live, account_empty. rewrite H. apply andb_false_r. Qed.
+
+  Definition needs_live (ef : effect) : bool :=
+    match ef with
+    | ESelfDestruct _ => true
+    | EFrame KCallCode _ _ _ _ | EFrame KDelegateCall _ _ _ _ => true
+    | _ => false
+    end.
+
+  Variable U : list addr.
+  Hypothesis U_nodup : NoDup U.
+
+  Definition sum_ok (self : addr) (s s' : state) (nsd : bool) : Prop :=
+    total U s' <= total U s /\ (nsd = true -> total U s' = total U s).
+
+  Definition PB (ef : effect) : Prop :=
+    forall d self (s : state), In self U -> incl (effect_addrs ef) U -> room s (creates ef) ->
+      (needs_live ef = true -> live s self) ->
+      sum_ok self s (run_effect h d self s ef) (no_sd_self self ef).
+
+  Lemma sum_list l : Forall PB l ->
+    forall d ctx (s : state), In ctx U -> incl (addrs_l l) U -> room s (creates_l l) -> live s ctx ->
+      sum_ok ctx s (run_effects h d ctx l s) (no_sd_self_l ctx l).
+  Proof.
+    induction 1 as [|e r He Hr IH]; intros d ctx s Hctx Hincl Hroom Hlive.
+    - split; [cbn; lia|reflexivity].
+    - cbn [run_effects creates_l addrs_l no_sd_self_l] in *.
+      assert (Hi1 : incl (effect_addrs e) U) by (intros x Hx; apply Hincl, in_or_app; now left).
+      assert (Hi2 : incl (addrs_l r) U) by (intros x Hx; apply Hincl, in_or_app; now right).
+      assert (Hr1 : room s (creates e)) by (eapply room_weaken; [|exact Hroom]; lia).
+      destruct (He d ctx s Hctx Hi1 Hr1 (fun _ => Hlive)) as [L1 E1].
+      pose proof (grows_effect e d ctx s Hr1) as G.
+      assert (Hr2 : room (run_effect h d ctx s e) (creates_l r)) by (eapply room_after; eauto).
+      destruct (IH d ctx _ Hctx Hi2 Hr2 (live_grows _ _ _ _ G Hlive)) as [L2 E2].
+      split; [lia|]. intros Hn. apply andb_true_iff in Hn. destruct Hn as [N1 N2].
+      rewrite (E2 N2), (E1 N1). reflexivity.
+  Qed.
+
+  Lemma sum_ok_refl self (s : state) b : sum_ok self s s b.
+  Proof. split; [lia|reflexivity]. Qed.
+
+  Lemma sum_ok_eq self (s s1 s' : state) b : total U s1 = total U s -> sum_ok self s1 s' b -> sum_ok self s s' b.
+  Proof. intros E [A B]. split; [lia|]. intros Hb. rewrite (B Hb). exact E. Qed.
+
+  Lemma sum_effect : forall ef, PB ef.
+  Proof.
+    apply effect_ind2.
+    - intros ben d self s Hself Hincl _ Hlive. specialize (Hlive eq_refl). cbn [run_effect no_sd_self].
+      assert (Hben : In ben U) by (apply Hincl; cbn; auto).
+      destruct (N.eqb_spec ben self) as [->|Hne]; cbn [negb].
+      + pose proof (selfdestruct_self_burns R U s self U_nodup Hself Hlive). split; [lia|discriminate].
+      + assert (Hne' : self <> ben) by congruence.
+        pose proof (selfdestruct_other_conserves R U s self ben U_nodup Hself Hben Hne' Hlive) as E.
+        split; [lia|auto].
+    - intros k to v ok body Hbody d self s Hself Hincl Hroom Hlive.
+      rewrite run_effect_frame, no_sd_self_frame. rewrite creates_frame in Hroom. rewrite addrs_frame in Hincl.
+      assert (Hto : In to U) by (apply Hincl; cbn; auto).
+      assert (Hib : incl (addrs_l body) U) by (intros x Hx; apply Hincl; cbn; auto).
+      pose proof (sum_list body Hbody (d + 1)) as HL.
+      destruct (CALL_CREATE_DEPTH <? d); [apply sum_ok_refl|].
+      destruct k; cbn [kcost body_ctx needs_live] in *.
+      + (* Call *)
+        destruct (negb (v =? 0) && negb (can_transfer (bal s self) v)) eqn:Eg; [apply sum_ok_refl|]. cbv zeta.
+        destruct ok; [|apply sum_ok_refl].
+        assert (Hv : v <= bal s self).
+        { unfold can_transfer in Eg. destruct (N.eqb_spec v 0); [lia|].
+          destruct (N.leb_spec v (bal s self)); [assumption|discriminate]. }
+        pose proof (total_transfer R U s self to v U_nodup Hself Hto Hv) as Et.
+        destruct (transfer_fields s self to v) as (E1 & E2 & _).
+        assert (G1 : grows 0 s (transfer s self to v)) by now apply grows_same.
+        destruct (has_code (transfer s self to v) to) eqn:Ec.
+        * eapply sum_ok_eq; [exact Et|]. apply HL; try assumption.
+          -- eapply room_after; [exact G1|exact Hroom].
+          -- now apply live_code.
+        * split; [lia|auto].
+      + (* CallCode *)
+        destruct (negb _); [apply sum_ok_refl|]. cbv zeta. destruct ok; [|apply sum_ok_refl].
+        apply HL; auto.
+      + (* DelegateCall *)
+        cbv zeta. destruct ok; [|apply sum_ok_refl]. apply HL; auto.
+      + (* StaticCall *)
+        destruct ok; [|apply sum_ok_refl]. unfold sum_ok. rewrite (total_add_balance R U s to 0 U_nodup Hto). split; [lia|intros; lia].
+      + (* Create *)
+        destruct (negb (can_transfer (bal s self) v)) eqn:Eg; [apply sum_ok_refl|]. cbv zeta.
+        assert (Hv : v <= bal s self).
+        { unfold can_transfer in Eg. destruct (N.leb_spec v (bal s self)); [assumption|discriminate]. }
+        pose proof (next_nonce_room s self _ Hroom ltac:(lia)) as En.
+        set (s0 := set_nonce s self (next_nonce (nonce s self))).
+        assert (T0 : total U s0 = total U s) by apply total_set_nonce.
+        destruct (collision s0 to) eqn:Ecol; [split; [lia|auto]|].
+        destruct ok; [|split; [lia|auto]].
+        rewrite eip158_active.
+        set (s1 := set_nonce s0 to 1).
+        assert (T1 : total U s1 = total U s) by (unfold s1; rewrite total_set_nonce; exact T0).
+        assert (Hv1 : v <= bal s1 self) by exact Hv.
+        pose proof (total_transfer R U s1 self to v U_nodup Hself Hto Hv1) as Et.
+        (* nonce bookkeeping as in grows_effect *)
+        unfold collision in Ecol. apply orb_false_iff in Ecol. destruct Ecol as [Ec1 Ec2].
+        apply negb_false_iff, N.eqb_eq in Ec1.
+        assert (Hne : to <> self).
+        { intros ->. unfold s0 in Ec1. cbn [set_nonce nonce] in Ec1. rewrite upd_same, En in Ec1. lia. }
+        assert (G1 : grows 1 s s1).
+        { split; [|auto]. intros a. unfold s1, s0 in *. cbn [set_nonce nonce] in *. unfold upd in *.
+          destruct (N.eqb_spec a to) as [->|Hat].
+          - destruct (N.eqb_spec to self); [contradiction|]. lia.
+          - destruct (N.eqb_spec a self); [subst; rewrite En|]; lia. }
+        destruct (transfer_fields s1 self to v) as (E1 & E2 & _).
+        assert (G2 : grows 1 s (transfer s1 self to v)).
+        { destruct G1 as [A B]. split; [intros a; rewrite E1; apply A|intros a; rewrite E2; apply B]. }
+        assert (Hl : live (transfer s1 self to v) to).
+        { unfold live, account_empty. rewrite E1. unfold s1. cbn [set_nonce nonce]. rewrite upd_same. reflexivity. }
+        assert (Hr2 : room (transfer s1 self to v) (creates_l body)) by (eapply room_after; [exact G2|exact Hroom]).
+        destruct (HL to _ Hto Hib Hr2 Hl) as [L E].
+        assert (Tc : forall x : state, total U (set_code x to) = total U x) by (intros; now apply total_ext).
+        unfold sum_ok. rewrite Tc. split; [lia|]. intros Hn. rewrite (E Hn). lia.
+  Qed.
+  (** * Below the top frame the transaction sender is out of reach *)
+  Variable sender : addr.
+
+  (** nonce at least 1 (so it cannot be the target of a creation) and no code (so it never executes) *)
+  Definition guard (s : state) : Prop := nonce s sender <> 0 /\ has_code s sender = false.
+  Definition shield (s s' : state) : Prop :=
+    guard s' /\ nonce s' sender = nonce s sender /\ bal s sender <= bal s' sender /\
+    suicided s' sender = suicided s sender.
+
+  Lemma shield_refl (s : state) : guard s -> shield s s.
+  Proof. intros G. repeat split; try apply G; lia. Qed.
+  Lemma shield_trans (s s' s'' : state) : shield s s' -> shield s' s'' -> shield s s''.
+  Proof. intros (G1 & N1 & B1 & S1) (G2 & N2 & B2 & S2). repeat split; try apply G2; try congruence; lia. Qed.
+
+  Lemma bal_sub_balance_other (s : state) a v x : x <> a -> bal (sub_balance s a v) x = bal s x.
+  Proof.
+    intros H. unfold sub_balance, handle_sub_balance. destruct (_ <? _); cbn [set_dberr set_bal bal]; [reflexivity|].
+    now apply upd_other.
+  Qed.
+
+  Lemma shield_transfer (s : state) a b v : a <> sender -> guard s -> shield s (transfer s a b v).
+  Proof.
+    intros Ha G. destruct (transfer_fields s a b v) as (E1 & E2 & E3).
+    unfold shield, guard. rewrite E1, E2, E3. repeat split; try apply G.
+    unfold transfer. rewrite bal_add_balance.
+    assert (Hs : sender <> a) by congruence.
+    destruct (N.eqb_spec sender b) as [<-|Hb]; rewrite (bal_sub_balance_other s a v sender Hs); lia.
+  Qed.
+
+  Definition PC (ef : effect) : Prop :=
+    forall d self (s : state), self <> sender -> guard s -> shield s (run_effect h d self s ef).
+
+  Lemma shield_list l : Forall PC l ->
+    forall d ctx (s : state), ctx <> sender -> guard s -> shield s (run_effects h d ctx l s).
+  Proof.
+    induction 1 as [|e r He Hr IH]; intros d ctx s Hctx G; [now apply shield_refl|].
+    cbn [run_effects]. pose proof (He d ctx s Hctx G) as S1.
+    eapply shield_trans; [exact S1|]. apply IH; [assumption|apply S1].
+  Qed.
+
+  Lemma shield_effect : forall ef, PC ef.
+  Proof.
+    apply effect_ind2.
+    - intros ben d self s Hself G. cbn [run_effect]. unfold op_selfdestruct, suicide.
+      rewrite account_empty_add_balance.
+      assert (S1 : shield s (add_balance s ben (bal s self))).
+      { unfold shield, guard. cbn [add_balance set_bal nonce has_code suicided]. repeat split; try apply G.
+        rewrite bal_add_balance. destruct (N.eqb_spec sender ben) as [<-|]; lia. }
+      destruct (account_empty s self); [exact S1|].
+      eapply shield_trans; [exact S1|]. destruct S1 as (G1 & _).
+      unfold shield, guard. cbn [set_bal mark_suicided add_balance nonce has_code suicided bal].
+      repeat split; try apply G1.
+      + rewrite (upd_other _ self 0 sender) by congruence. lia.
+      + now rewrite upd_other by congruence.
+    - intros k to v ok body Hbody d self s Hself G. rewrite run_effect_frame.
+      pose proof (shield_list body Hbody (d + 1)) as HL.
+      destruct (CALL_CREATE_DEPTH <? d); [now apply shield_refl|].
+      destruct k.
+      + destruct (_ && _); [now apply shield_refl|]. cbv zeta. destruct ok; [|now apply shield_refl].
+        pose proof (shield_transfer s self to v Hself G) as S1.
+        destruct (has_code (transfer s self to v) to) eqn:Ec; [|exact S1].
+        assert (Hto : to <> sender).
+        { intros ->. destruct S1 as ((_ & Hc) & _). congruence. }
+        eapply shield_trans; [exact S1|]. apply HL; [assumption|apply S1].
+      + destruct (negb _); [now apply shield_refl|]. cbv zeta. destruct ok; [|now apply shield_refl]. now apply HL.
+      + cbv zeta. destruct ok; [|now apply shield_refl]. now apply HL.
+      + destruct ok; [|now apply shield_refl].
+        unfold shield, guard. cbn [add_balance set_bal nonce has_code suicided]. repeat split; try apply G.
+        rewrite bal_add_balance. destruct (N.eqb_spec sender to) as [<-|]; lia.
+      + destruct (negb _); [now apply shield_refl|]. cbv zeta.
+        set (s0 := set_nonce s self (next_nonce (nonce s self))).
+        assert (S0 : shield s s0).
+        { unfold shield, guard, s0. cbn [set_nonce nonce has_code suicided bal].
+          rewrite upd_other by congruence. repeat split; try apply G. lia. }
+        destruct (collision s0 to) eqn:Ecol; [exact S0|]. destruct ok; [|exact S0].
+        assert (Hto : to <> sender).
+        { intros ->. destruct S0 as ((Hn & _) & _). unfold collision in Ecol.
+          apply orb_false_iff in Ecol. destruct Ecol as [Ec _]. apply negb_false_iff, N.eqb_eq in Ec. contradiction. }
+        rewrite eip158_active.
+        set (s1 := set_nonce s0 to 1).
+        assert (S1 : shield s0 s1).
+        { destruct S0 as (G0 & _). unfold shield, guard, s1. cbn [set_nonce nonce has_code suicided bal].
+          rewrite upd_other by congruence. repeat split; try apply G0. lia. }
+        assert (G1 : guard s1) by apply S1.
+        pose proof (shield_transfer s1 self to v Hself G1) as S2.
+        assert (S3 : shield (transfer s1 self to v) (run_effects h (d + 1) to body (transfer s1 self to v)))
+          by (apply HL; [assumption|apply S2]).
+        assert (S4 : shield s (run_effects h (d + 1) to body (transfer s1 self to v)))
+          by (eapply shield_trans; [exact S0|]; eapply shield_trans; [exact S1|]; eapply shield_trans; eauto).
+        destruct S4 as ((Gn & Gc) & N4 & B4 & U4).
+        unfold shield, guard. cbn [set_code nonce has_code suicided bal]. rewrite upd_other by congruence.
+        repeat split; assumption.
+  Qed.
+  (** * The top frame: evm.Call / evm.Create with the transaction sender as caller *)
+  Lemma depth0 : (CALL_CREATE_DEPTH <? 0) = false.
+  Proof. reflexivity. Qed.
+
+  Definition top_frame (c : bool) (to : addr) (v : N) (ok : bool) (body : list effect) : effect :=
+    EFrame (if c then KCreate else KCall) to v ok body.
+
+  Lemma top_call (s0 : state) to v ok body :
+    guard s0 -> v <= bal s0 sender ->
+    let s' := run_effect h 0 sender s0 (top_frame false to v ok body) in
+    nonce s' sender = nonce s0 sender /\ bal s0 sender <= bal s' sender + v /\
+    suicided s' sender = suicided s0 sender /\ (ok = false -> s' = s0).
+  Proof.
+    intros G Hv. cbv zeta. unfold top_frame. rewrite run_effect_frame. rewrite depth0.
+    destruct (_ && _); [repeat split; lia|]. cbv zeta.
+    destruct ok; [|repeat split; lia].
+    destruct (transfer_fields s0 sender to v) as (E1 & E2 & E3).
+    assert (B1 : bal s0 sender <= bal (transfer s0 sender to v) sender + v).
+    { unfold transfer. rewrite sub_balance_ok by assumption. rewrite bal_add_balance. cbn [set_bal bal].
+      destruct (N.eqb_spec sender to) as [<-|]; rewrite upd_same; lia. }
+    assert (G1 : guard (transfer s0 sender to v)) by (unfold guard; rewrite E1, E2; exact G).
+    destruct (has_code (transfer s0 sender to v) to) eqn:Ec.
+    - assert (Hto : to <> sender) by (intros ->; destruct G1; congruence).
+      destruct (shield_list body (Forall_all _ shield_effect body) (0 + 1) to _ Hto G1) as (_ & N2 & B2 & S2).
+      repeat split; try congruence; try lia.
+    - repeat split; try congruence; try lia.
+  Qed.
+  Lemma top_create (s0 : state) to v ok body :
+    has_code s0 sender = false -> v <= bal s0 sender -> nonce s0 sender + 1 < U64 ->
+    let s' := run_effect h 0 sender s0 (top_frame true to v ok body) in
+    let sb := set_nonce s0 sender (next_nonce (nonce s0 sender)) in
+    nonce s' sender = next_nonce (nonce s0 sender) /\ bal s0 sender <= bal s' sender + v /\
+    suicided s' sender = suicided s0 sender /\ (ok = false -> s' = sb).
+  Proof.
+    intros Hc Hv Hroom. cbv zeta. unfold top_frame. rewrite run_effect_frame. rewrite depth0.
+    assert (Ect : can_transfer (bal s0 sender) v = true) by (unfold can_transfer; apply N.leb_le; exact Hv).
+    rewrite Ect. cbn [negb]. cbv zeta.
+    assert (En : next_nonce (nonce s0 sender) = nonce s0 sender + 1).
+    { unfold next_nonce. rewrite U64_val in Hroom. lia. }
+    set (sb := set_nonce s0 sender (next_nonce (nonce s0 sender))).
+    assert (Nb : nonce sb sender = next_nonce (nonce s0 sender)) by (unfold sb; cbn; now rewrite upd_same).
+    assert (Gb : guard sb) by (split; [rewrite Nb, En; lia|exact Hc]).
+    destruct (collision sb to) eqn:Ecol; [repeat split; try assumption; cbn; lia|].
+    destruct ok; [|repeat split; try assumption; cbn; lia].
+    assert (Hto : to <> sender).
+    { intros ->. unfold collision in Ecol. apply orb_false_iff in Ecol. destruct Ecol as [Ec _].
+      apply negb_false_iff, N.eqb_eq in Ec. destruct Gb. contradiction. }
+    rewrite eip158_active.
+    set (s1 := set_nonce sb to 1).
+    assert (G1 : guard s1).
+    { unfold guard, s1. cbn [set_nonce nonce has_code]. rewrite upd_other by congruence. exact Gb. }
+    assert (N1 : nonce s1 sender = next_nonce (nonce s0 sender)).
+    { unfold s1. cbn [set_nonce nonce]. rewrite upd_other by congruence. exact Nb. }
+    destruct (transfer_fields s1 sender to v) as (E1 & E2 & E3).
+    assert (B1 : bal s0 sender <= bal (transfer s1 sender to v) sender + v).
+    { unfold transfer. rewrite sub_balance_ok by exact Hv. rewrite bal_add_balance. cbn [set_bal bal].
+      destruct (N.eqb_spec sender to) as [E|]; [congruence|]. rewrite upd_same. cbn. lia. }
+    assert (G2 : guard (transfer s1 sender to v)) by (unfold guard; rewrite E1, E2; exact G1).
+    destruct (shield_list body (Forall_all _ shield_effect body) (0 + 1) to _ Hto G2) as (_ & N3 & B3 & S3).
+    cbn [set_code nonce bal suicided].
+    repeat split; try discriminate.
+    - rewrite N3, E1. exact N1.
+    - lia.
+    - rewrite S3, E3. reflexivity.
+  Qed.
 End Frames.
+
+(** * Every program: the interpreter hypotheses of Proofs/C07.v hold for [run_of_tree] *)
+Section Programs.
+  Variable R : Type.
+  Variable clean : (addr -> bool) -> R -> R.
+  Notation state := (state R).
+
+  (** Consistency of what the harness records about the top frame: the error and the success flag
+      agree, and a failed frame has its refund counter restored (RevertToSnapshot). *)
+  Definition oracle_ok (o : frame_oracle) : Prop :=
+    (fo_err o <> None -> fo_ok o = false) /\ (fo_ok o = false -> fo_refund o = 0).
+
+  Definition tree_target (m : msg) (o : frame_oracle) : addr :=
+    match m_to m with Some a => a | None => fo_target o end.
+
+  Section One.
+    Variables (e : env) (s : state) (m : msg) (o : frame_oracle).
+    Let run := run_of_tree (R := R) (height e) o.
+    Hypothesis Hwf : wf_msg m.
+    Hypothesis Hcode : has_code s (m_from m) = false.
+    Hypothesis Hsu : suicided s (m_from m) = false.
+    Hypothesis Hroom : forall a, nonce s a + 2 + creates_l (fo_body o) < U64.
+
+    Let frame_of (c : bool) := top_frame c (tree_target m o) (m_value m) (fo_ok o) (fo_body o).
+
+    Lemma run_state c (s0 : state) g :
+      r_state (run c s0 m g) = run_effect (height e) 0 (m_from m) s0 (frame_of c).
+    Proof. reflexivity. Qed.
+
+    Lemma next_nonce_sender : next_nonce (nonce s (m_from m)) = nonce s (m_from m) + 1.
+    Proof. unfold next_nonce. pose proof (Hroom (m_from m)) as H. rewrite U64_val in H. lia. Qed.
+
+    (** facts about the state handed over, per kind *)
+    Lemma handed_call (s0 : state) g : invocation e s m = Some (false, s0, g) ->
+      guard R (m_from m) s0 /\ m_value m <= bal s0 (m_from m) /\ suicided s0 (m_from m) = false.
+    Proof.
+      intros Hinv. destruct (invocation_facts R e s m _ _ _ Hwf Hinv) as (_ & Hc & Hs & _ & _ & Hn & Hv & _).
+      repeat split; try assumption.
+      - rewrite Hn, next_nonce_sender. lia.
+      - now rewrite Hc.
+      - now rewrite Hs.
+    Qed.
+
+    Lemma handed_create (s0 : state) g : invocation e s m = Some (true, s0, g) ->
+      has_code s0 (m_from m) = false /\ m_value m <= bal s0 (m_from m) /\
+      nonce s0 (m_from m) + 1 < U64 /\ suicided s0 (m_from m) = false.
+    Proof.
+      intros Hinv. destruct (invocation_facts R e s m _ _ _ Hwf Hinv) as (_ & Hc & Hs & _ & _ & Hn & Hv & _).
+      repeat split; try assumption.
+      - now rewrite Hc.
+      - rewrite Hn. pose proof (Hroom (m_from m)). lia.
+      - now rewrite Hs.
+    Qed.
+
+    Lemma tree_nonce : H_nonce R run e s m.
+    Proof.
+      intros c s0 g Hinv. rewrite run_state. destruct c.
+      - destruct (handed_create s0 g Hinv) as (A & B & C & _).
+        apply (top_create R (height e) (m_from m) s0 _ _ _ _ A B C).
+      - destruct (handed_call s0 g Hinv) as (A & B & _).
+        apply (top_call R (height e) (m_from m) s0 _ _ _ _ A B).
+    Qed.
+
+    Lemma tree_debit : H_debit R run e s m.
+    Proof.
+      intros c s0 g Hinv. rewrite run_state. destruct c.
+      - destruct (handed_create s0 g Hinv) as (A & B & C & _).
+        apply (top_create R (height e) (m_from m) s0 _ _ _ _ A B C).
+      - destruct (handed_call s0 g Hinv) as (A & B & _).
+        apply (top_call R (height e) (m_from m) s0 _ _ _ _ A B).
+    Qed.
+
+    Lemma tree_alive : H_alive R run e s m.
+    Proof.
+      intros c s0 g Hinv. rewrite run_state. destruct c.
+      - destruct (handed_create s0 g Hinv) as (A & B & C & D).
+        destruct (top_create R (height e) (m_from m) s0 (tree_target m o) (m_value m) (fo_ok o) (fo_body o) A B C)
+          as (_ & _ & S & _). fold (frame_of true) in S. now rewrite S.
+      - destruct (handed_call s0 g Hinv) as (A & B & D).
+        destruct (top_call R (height e) (m_from m) s0 (tree_target m o) (m_value m) (fo_ok o) (fo_body o) A B)
+          as (_ & _ & S & _). fold (frame_of false) in S. now rewrite S.
+    Qed.
+
+    Lemma tree_revert : oracle_ok o -> H_revert R run e s m.
+    Proof.
+      intros [Ho1 Ho2] c s0 g Hinv Herr. rewrite run_state.
+      assert (Hok : fo_ok o = false) by (apply Ho1; exact Herr).
+      split; [|split; [|split; [|split]]]; try (cbn; apply Ho2; exact Hok); destruct c.
+      all: try (destruct (handed_create s0 g Hinv) as (A & B & C & _);
+                destruct (top_create R (height e) (m_from m) s0 (tree_target m o) (m_value m) (fo_ok o) (fo_body o) A B C)
+                  as (_ & _ & _ & E); fold (frame_of true) in E; rewrite (E Hok)).
+      all: try (destruct (handed_call s0 g Hinv) as (A & B & _);
+                destruct (top_call R (height e) (m_from m) s0 (tree_target m o) (m_value m) (fo_ok o) (fo_body o) A B)
+                  as (_ & _ & _ & E); fold (frame_of false) in E; rewrite (E Hok)).
+      all: try reflexivity.
+      intros a Ha. cbn [set_nonce nonce]. now rewrite upd_other.
+    Qed.
+
+    Variable U : list addr.
+    Hypothesis U_nodup : NoDup U.
+    Hypothesis U_from : In (m_from m) U.
+    Hypothesis U_target : In (tree_target m o) U.
+    Hypothesis U_body : incl (addrs_l (fo_body o)) U.
+
+    Lemma tree_sum_ok c (s0 : state) g : invocation e s m = Some (c, s0, g) ->
+      sum_ok R U (m_from m) s0 (run_effect (height e) 0 (m_from m) s0 (frame_of c))
+             (no_sd_self_l (tree_target m o) (fo_body o)).
+    Proof.
+      intros Hinv.
+      assert (Hr : room R s0 (creates (frame_of c))).
+      { destruct (invocation_facts R e s m _ _ _ Hwf Hinv) as (_ & _ & _ & _ & Hoth & Hn & _).
+        intros a. unfold frame_of, top_frame. rewrite creates_frame.
+        assert (nonce s0 a <= nonce s a + 1).
+        { destruct (N.eq_dec a (m_from m)) as [->|Ha]; [|destruct (Hoth a Ha) as [-> _]; lia].
+          rewrite Hn. destruct c; [lia|rewrite next_nonce_sender; lia]. }
+        pose proof (Hroom a). destruct c; cbn [kcost]; lia. }
+      assert (Hi : incl (effect_addrs (frame_of c)) U).
+      { unfold frame_of, top_frame. rewrite addrs_frame. intros x [<-|Hx]; [exact U_target|now apply U_body]. }
+      pose proof (sum_effect R (height e) U U_nodup (frame_of c) 0 (m_from m) s0 U_from Hi Hr) as H.
+      unfold frame_of, top_frame in H. rewrite no_sd_self_frame in H.
+      destruct c; cbn [needs_live body_ctx] in H; apply H; discriminate.
+    Qed.
+
+    Lemma tree_sum_le : H_sum_le R run U e s m.
+    Proof. intros c s0 g Hinv. rewrite run_state. apply (tree_sum_ok c s0 g Hinv). Qed.
+
+    Lemma tree_sum : no_sd_self_l (tree_target m o) (fo_body o) = true -> H_sum R run U e s m.
+    Proof. intros Hn c s0 g Hinv. rewrite run_state. now apply (tree_sum_ok c s0 g Hinv). Qed.
+  End One.
+End Programs.
+
+(** * The inventory of state-writing calls in the EVM packages is the one the two models mirror.
+      (Regenerated from the source on every run; a new writer call breaks this equation.) *)
+Require Import String.
+Example write_sites_as_modelled :
+  STATE_WRITE_SITES =
+  [ (* Model/EvmFrames.v *)
+    ("vm/evm/evm.go", "Call", "Transfer");                       (* KCall: transfer *)
+    ("vm/evm/evm.go", "StaticCall", "AddBalance");               (* KStaticCall: add_balance _ 0 *)
+    ("vm/evm/evm.go", "create", "SetNonce");                     (* KCreate: caller nonce + 1 *)
+    ("vm/evm/evm.go", "create", "SetNonce");                     (* KCreate: new account nonce 1 *)
+    ("vm/evm/evm.go", "create", "Transfer");                     (* KCreate: transfer *)
+    ("vm/evm/evm.go", "create", "SetCode");                      (* KCreate: set_code *)
+    ("vm/evm/instructions.go", "opSuicide", "AddBalance");       (* op_selfdestruct *)
+    ("vm/evm/instructions.go", "opSuicide", "Suicide");          (* op_selfdestruct: suicide *)
+    ("smartcontract/service/evm/evm.go", "Transfer", "SubBalance");   (* transfer *)
+    ("smartcontract/service/evm/evm.go", "Transfer", "AddBalance");
+    (* Model/EvmEnvelope.v *)
+    ("smartcontract/service/evm/state_transition.go", "buyGas", "SubBalance");
+    ("smartcontract/service/evm/state_transition.go", "handleGasFee", "AddBalance");
+    ("smartcontract/service/evm/state_transition.go", "TransitionDb", "SetNonce");
+    ("smartcontract/service/evm/state_transition.go", "TransitionDb", "SetNonce");
+    ("smartcontract/service/evm/state_transition.go", "TransitionDb", "AddBalance");
+    ("smartcontract/service/evm/state_transition.go", "refundGas", "AddBalance") ]%string.
+Proof. reflexivity. Qed.
